@@ -32,6 +32,11 @@ def toKind : List SExp → Option Kind
   | [.atom "sub", a, b, r] => do some (.sub (← nat? a) (← nat? b) (← nat? r))
   | [.atom "mul", a, b, r] => do some (.mul (← nat? a) (← nat? b) (← nat? r))
   | [.atom "range", a, hi, lo, r] => do some (.range (← nat? a) (← nat? hi) (← nat? lo) (← nat? r))
+  | [.atom "catm", r, .list ins] => do some (.catm (← nats? ins) (← nat? r))
+  | [.atom "catl", r, .list ins] => do some (.catl (← nats? ins) (← nat? r))
+  | [.atom "rept", i, r] => do some (.rept (← nat? i) (← nat? r))
+  | [.atom "sext", a, r] => do some (.sext (← nat? a) (← nat? r))
+  | [.atom "smul", a, b, r] => do some (.smul (← nat? a) (← nat? b) (← nat? r))
   | _ => none
 
 def toChild : SExp → Option FlatM.Child
